@@ -15,7 +15,11 @@ Counts per operation kind and part.
 """
 from prosemirror.transform import ReplaceAroundStep, ReplaceStep
 
-STRUCT = ("split", "join", "lift", "wrap", "set_node_markup", "set_block_type")
+# the structural operations (theorems say which parts of the guard hold) and the replace family (`Transform.replace` and
+# friends go through `replace_step` / the Fitter: the guard of their recorded steps — normal-form slice, valid payload —
+# is the remaining hypothesis of `opHistory_undo` for them, measured here)
+REPLACE = ("replace", "replace_with", "insert", "delete", "replace_range", "replace_range_with", "delete_range")
+STRUCT = ("split", "join", "lift", "wrap", "set_node_markup", "set_block_type") + REPLACE
 PARTS = ("shape", "payload", "hst", "gapClean", "aligned")
 
 
